@@ -106,7 +106,7 @@ pub fn main(args: &[String]) {
                 // ENVIRONMENT: a destination that fails ONCE (disk full, then space freed) while the application keeps using
                 // the writer: whatever reaches the destination afterwards must still hold no plaintext
                 if par.stack.enc {
-                    for fail_at in [1usize, 2, 3, 5, 8, 13, 21, 34] {
+                    for fail_at in (1usize..=40).chain([55, 89]) {
                         let mut sched = vec![1i64 << 30; fail_at];
                         sched.push(-1);
                         sched.extend(std::iter::repeat(1i64 << 30).take(100_000));
